@@ -68,6 +68,9 @@ class EngineBase:
     def parent_init(self):
         """Runs once in the driver before the batch workers are forked."""
 
+    def parent_fini(self):
+        """Runs once in the driver at the very end."""
+
     def worker_init(self, wid):
         pass
 
@@ -288,6 +291,18 @@ def write_evidence(engine: EngineBase, tier, seed, agg: Aggregate | None, wall, 
 
 
 def main(engine_cls, script):
+    holder = []
+    try:
+        return _main(engine_cls, script, holder)
+    finally:
+        for e in holder:
+            try:
+                e.parent_fini()
+            except Exception:
+                traceback.print_exc()
+
+
+def _main(engine_cls, script, holder):
     ap = argparse.ArgumentParser()
     ap.add_argument("prop")
     ap.add_argument("--tier", default=os.environ.get("VERIF_TIER", "quick"), choices=["quick", "thorough"])
@@ -301,6 +316,7 @@ def main(engine_cls, script):
     try:
         core.setup_repo_imports()
         engine = engine_cls(args.tier)
+        holder.append(engine)
     except Exception:
         traceback.print_exc()
         print(f"HARNESS-ERROR property={args.prop} cannot set up engine")
